@@ -15,6 +15,7 @@ import (
 	"fmt"
 	"math/rand"
 	"os"
+	"regexp"
 	"strconv"
 	"strings"
 	"sync"
@@ -66,6 +67,10 @@ func mkPool(get func(string) string, metrics engine.Metrics) (*poolRun, error) {
 	pr.parts = partsLeft(get("sched"), tokens)
 	pr.cap = mkStartup(get("start"), inst).Left()
 	p := mkProvider(rec, get("prov"), atoi(get("ammo")))
+	if pp, ok := p.(*prov); ok && get("av") != "" {
+		pp.av = get("av")
+		rec.indistinct = true
+	}
 	var ids map[any]int
 	if wp, ok := p.(*wprov); ok {
 		ids = wp.ids
@@ -386,6 +391,26 @@ func line(inst, shared, tokens, ammo, disc, past, shot int, sched string, extra 
 
 func pick[T any](r *rand.Rand, xs ...T) T { return xs[r.Intn(len(xs))] }
 
+var (
+	avKinds = []string{"nil", "nil", "nilptr", "zero", "estr", "false", "unit", "same"}
+	reProv  = regexp.MustCompile(`prov=[a-z]+`)
+)
+
+// oddAmmo: now and then the provider hands out ammo VALUES that are unusual but valid (core.Ammo is interface{}): the mock
+// with av=<kind> (untyped nil, typed nil pointer, zero values, an empty struct, one object for all items), or the built-in
+// `dummy` provider (every item is the untyped nil). What the engine must do does not depend on the value of an item.
+func oddAmmo(r *rand.Rand, extra string) string {
+	switch r.Intn(8) {
+	case 0, 1:
+		if strings.Contains(extra, "prov=mock") {
+			return extra + " av=" + pick(r, avKinds...)
+		}
+	case 2:
+		return reProv.ReplaceAllString(extra, "prov=dummy")
+	}
+	return extra
+}
+
 func gen(r *rand.Rand, tier string) []string {
 	thorough := tier == "thorough"
 	var out []string
@@ -412,7 +437,7 @@ func gen(r *rand.Rand, tier string) []string {
 				for _, t := range toks {
 					for _, a := range ammos {
 						for _, disc := range []int{0, 1} {
-							extra := "prov=" + pick(r, provs...) + " aggr=" + pick(r, aggrs...)
+							extra := oddAmmo(r, "prov="+pick(r, provs...)+" aggr="+pick(r, aggrs...))
 							if r.Intn(3) == 0 {
 								extra += " start=ramp" + itoa(pick(r, 1, 2, 5))
 							}
@@ -433,7 +458,7 @@ func gen(r *rand.Rand, tier string) []string {
 		n = 8000
 	}
 	for i := 0; i < n; i++ {
-		extra := "prov=" + pick(r, provs...) + " aggr=" + pick(r, aggrs...)
+		extra := oddAmmo(r, "prov="+pick(r, provs...)+" aggr="+pick(r, aggrs...))
 		if r.Intn(3) == 0 {
 			extra += " start=ramp" + itoa(pick(r, 1, 2, 5))
 		}
@@ -459,7 +484,7 @@ func gen(r *rand.Rand, tier string) []string {
 		if r.Intn(4) == 0 {
 			am = pick(r, -1, tokens, tokens+2)
 		}
-		extra := fmt.Sprintf("start=ramp%d prov=%s aggr=%s", pick(r, 3, 5, 8, 12), pick(r, provs...), pick(r, aggrs...))
+		extra := oddAmmo(r, fmt.Sprintf("start=ramp%d prov=%s aggr=%s", pick(r, 3, 5, 8, 12), pick(r, provs...), pick(r, aggrs...)))
 		out = append(out, line(inst, r.Intn(2), tokens, am, r.Intn(2), pick(r, 0, 0, 3), pick(r, 0, 100, 1500), "paced"+itoa(pick(r, 2, 4, 7, 11)), extra))
 	}
 
@@ -471,7 +496,7 @@ func gen(r *rand.Rand, tier string) []string {
 	for i := 0; i < n; i++ {
 		inst := 2 + r.Intn(4)
 		tokens := r.Intn(7)
-		extra := fmt.Sprintf("prov=%s aggr=%s ctl=rand:%d:%d", pick(r, "mock", "mock", "json", "num"), pick(r, aggrs...), r.Intn(1000000), r.Intn(3))
+		extra := oddAmmo(r, fmt.Sprintf("prov=%s aggr=%s ctl=rand:%d:%d", pick(r, "mock", "mock", "json", "num"), pick(r, aggrs...), r.Intn(1000000), r.Intn(3)))
 		if r.Intn(2) == 0 {
 			extra += " sctl=1" // the goroutine that starts the instances takes part in the controlled interleaving
 		}
@@ -494,7 +519,7 @@ func gen(r *rand.Rand, tier string) []string {
 		if r.Intn(3) == 0 {
 			shared = 0
 		}
-		extra := fmt.Sprintf("prov=%s aggr=%s ctl=rand:%d:%d fine=1", pick(r, "mock", "mock", "mock", "json", "num"), pick(r, aggrs...), r.Intn(1000000), r.Intn(3))
+		extra := oddAmmo(r, fmt.Sprintf("prov=%s aggr=%s ctl=rand:%d:%d fine=1", pick(r, "mock", "mock", "mock", "json", "num"), pick(r, aggrs...), r.Intn(1000000), r.Intn(3)))
 		if r.Intn(3) == 0 {
 			extra += " sctl=1"
 		}
@@ -586,7 +611,7 @@ func gen(r *rand.Rand, tier string) []string {
 						if sp == "split" {
 							kind = "once"
 						}
-						extra := fmt.Sprintf("cfg=%s rpsy=%s prov=%s aggr=%s", route, sp, pick(r, provs...), pick(r, aggrs...))
+						extra := oddAmmo(r, fmt.Sprintf("cfg=%s rpsy=%s prov=%s aggr=%s", route, sp, pick(r, provs...), pick(r, aggrs...)))
 						if r.Intn(3) == 0 {
 							extra += " stay=" + pick(r, "list", "block", "nest")
 						}
@@ -640,7 +665,7 @@ func gen(r *rand.Rand, tier string) []string {
 		n = 1500
 	}
 	for i := 0; i < n; i++ {
-		extra := fmt.Sprintf("race=1 prov=%s aggr=%s", pick(r, "json", "num", "jsonlimit", "mock"), pick(r, aggrs...))
+		extra := oddAmmo(r, fmt.Sprintf("race=1 prov=%s aggr=%s", pick(r, "json", "num", "jsonlimit", "mock"), pick(r, aggrs...)))
 		switch r.Intn(4) {
 		case 0:
 			extra += " cfg=" + pick(r, "cli", "yaml2") + " rpsy=" + pick(r, "map", "list", "nest")
@@ -688,6 +713,11 @@ func gen(r *rand.Rand, tier string) []string {
 		bases = append(bases, line(2, 1, 1, a, 0, 0, 0, "once", "fine=1"))
 	}
 	bases = append(bases, line(2, 0, 1, 1, 1, 1, 0, "once", "fine=1"))
+	// 5v. … with ammo values the instances cannot tell apart (every item is the untyped nil)
+	bases = append(bases, line(2, 1, 1, 1, 0, 0, 0, "once", "av=nil"))
+	if thorough {
+		bases = append(bases, line(2, 0, 1, 2, 0, 0, 0, "once", "prov=dummy"), line(2, 1, 1, -1, 1, 1, 0, "once", "prov=dummy cfg=cli rpsy=list"))
+	}
 	// 5s. … and with the goroutine that starts the instances as one more participant (an instance may run, finish the
 	//     profile or run out of ammo before the next one exists; the start may be cut)
 	bases = append(bases, line(2, 1, 1, 1, 0, 0, 0, "once", "sctl=1"), line(2, 0, 1, 1, 0, 0, 0, "once", "sctl=1"),
@@ -733,6 +763,7 @@ func gen(r *rand.Rand, tier string) []string {
 			line(3, 1, 2, 2, 0, 0, 0, "cz:1.0.1", "fine=1"),
 			line(3, 1, 1, -1, 0, 0, 0, "once", "fine=1"), line(3, 1, 2, 2, 0, 0, 0, "once", "sctl=1"),
 			line(3, 0, 2, 4, 0, 0, 0, "once", "cfg=cli rpsy=list"),
+			line(3, 1, 2, -1, 0, 0, 0, "once", "prov=dummy"),
 			line(2, 1, 1, -1, 0, 0, 0, "once", "pools=2 shared.1=0 tokens.1=1 ammo.1=2 inst.1=2 discard.1=0"))
 	}
 	if thorough {
@@ -861,6 +892,9 @@ func main() {
 			}
 			if p := m["prov"]; (p != "" && p != "mock") || m["aggr"] == "phout" {
 				how += "+real"
+			}
+			if m["av"] != "" || m["prov"] == "dummy" {
+				how += "+odd-ammo-value"
 			}
 			if m["race"] == "1" {
 				how += "+race-detector"
